@@ -154,6 +154,19 @@ fn replay(line: &Value, e: &Embedding, want: &QWant, rep: &mut Report) {
                 viol(rep, prop, e, line, "roundtrip", format!("restored estimator differs at position {k}: {} vs {}", fmt_f(restored.quantile()), fmt_f(a.quantile())), json!({"json": before}));
             }
             a = restored;
+            // the same through a positional (not self-describing) lossless format, at odd positions
+            match crate::posfmt::roundtrip(&feed(k)) {
+                Ok(rp) => {
+                    rep.evaluations += 1;
+                    if serde_json::to_string(&rp).unwrap() != before {
+                        viol(rep, prop, e, line, "roundtrip (positional format)", format!("restored estimator differs at position {k}"), json!({"json": before, "restored": serde_json::to_string(&rp).unwrap()}));
+                    }
+                    if k % 2 == 1 {
+                        a = rp;
+                    }
+                }
+                Err(_) => rep.bump("positional_format_not_supported", 1),
+            }
             for &x in &xs[k..] {
                 a.add(x);
             }
